@@ -22,8 +22,8 @@ def class_resolver(src, table):
         mros[cname] = src.mro(ci)
 
     def resolve(recv, name):
-        c = getattr(recv, "_cls", None) if isinstance(recv, Sym) else None
-        if c in mros and name not in recv.__dict__ and not callable(getattr(type(recv), name, None)):
+        c = getattr(recv, "_cls", None)
+        if c in mros and name not in getattr(recv, "__dict__", {}) and not callable(getattr(type(recv), name, None)):
             for ci in mros[c]:
                 if name in ci.methods:
                     return ci.methods[name]
@@ -1404,7 +1404,7 @@ class GQ:
         return f"({self.re}+{self.im}j)"
 
 
-def pc_evolver_rule(chk, src, rule, tableaux, rule_adaptive=None, rule_error=None):
+def pc_evolver_rule(chk, src, rule, tableaux, rule_adaptive=None, rule_error=None, rule_compress=None):
     """abstract run of the three propagate-and-compress evolvers on states of a free algebra: a state is a linear combination of words H(t_k)...H(t_1) y with exact
     (complex rational) coefficients, an operator application prepends its time, scale / add / compressed_sum are the algebra's operations, compression is the identity.
     The step T is a generic rational, so that the times t0 + c_i tau of different stages and sub-steps are distinct letters.
@@ -1422,9 +1422,12 @@ def pc_evolver_rule(chk, src, rule, tableaux, rule_adaptive=None, rule_error=Non
         return {k: v for k, v in d.items() if v}
 
     class St(Sym):
-        def __init__(self, terms, cfg):
+        """state of the free algebra + a typestate bit: `compressed` = the bond dimensions are back under the configured limit (sums are not, compressed sums / operator
+        applications / compress() are; scaling and copying keep the bit)"""
+        def __init__(self, terms, cfg, compressed=True):
             super().__init__("state")
             self.terms, self.evolve_config, self.compress_config = lin(terms), cfg, Sym("cc", copy=lambda: Sym("cc2", criteria="c"), criteria="c")
+            self.compressed = compressed
 
         def scale(self, c, inplace=False):
             c = GQ.of(c)
@@ -1432,10 +1435,10 @@ def pc_evolver_rule(chk, src, rule, tableaux, rule_adaptive=None, rule_error=Non
             if inplace:
                 self.terms = t
                 return self
-            return St(t, self.evolve_config)
+            return St(t, self.evolve_config, self.compressed)
 
         def add(self, o):
-            return St({k: self.terms.get(k, GQ()) + o.terms.get(k, GQ()) for k in set(self.terms) | set(o.terms)}, self.evolve_config)
+            return St({k: self.terms.get(k, GQ()) + o.terms.get(k, GQ()) for k in set(self.terms) | set(o.terms)}, self.evolve_config, False)
 
         __add__ = add
 
@@ -1443,10 +1446,11 @@ def pc_evolver_rule(chk, src, rule, tableaux, rule_adaptive=None, rule_error=Non
             return self
 
         def compress(self, *a, **k):
+            self.compressed = True
             return self
 
         def copy(self):
-            return St(dict(self.terms), self.evolve_config)
+            return St(dict(self.terms), self.evolve_config, self.compressed)
 
         @property
         def norm(self):
@@ -1485,7 +1489,7 @@ def pc_evolver_rule(chk, src, rule, tableaux, rule_adaptive=None, rule_error=Non
             self.t = Fr(t)
 
         def contract(self, st, *a, **k):
-            return St({(self.t,) + w: v for w, v in st.terms.items()}, st.evolve_config)
+            return St({(self.t,) + w: v for w, v in st.terms.items()}, st.evolve_config, True)
 
         apply = contract
     script = {"errors": [], "steps": [], "ratios": []}
@@ -1495,7 +1499,7 @@ def pc_evolver_rule(chk, src, rule, tableaux, rule_adaptive=None, rule_error=Non
         out = lst[0]
         for x in lst[1:]:
             out = out.add(x)
-        return St(dict(out.terms), out.evolve_config)
+        return St(dict(out.terms), out.evolve_config, True)
 
     def rk_step(a, b_row, c, stages, y_terms, tau, t0, b_err=None):
         """the Runge-Kutta formula in the free algebra"""
@@ -1543,6 +1547,9 @@ def pc_evolver_rule(chk, src, rule, tableaux, rule_adaptive=None, rule_error=Non
         script.update(errors=[], steps=[])
         res = make_it().call_function(fi, [me, (lambda t, *a_, **k_: OpAt(t)), T])
         want = rk_step(a, b[0], c, stages, y0, T, 0)
+        if rule_compress:
+            chk.ob(rule_compress, f"general RK evolver[{m}] returns a compressed state", isinstance(res, St) and res.compressed, fi.where, "sum not compressed" if isinstance(res, St) and not res.compressed else "compressed",
+                   "value produced by compressed_sum / compress / contract", line=fi.node.lineno, detail="the evolver returns a state that was summed but not compressed: bond dimensions exceed the configured limit")
         ok = isinstance(res, St) and res.terms == want
         chk.ob(rule, f"general RK evolver[{m}]: one step = the Runge-Kutta formula of the tableau", ok, fi.where, "differs from the formula" if not ok else "equal", "equal", line=fi.node.lineno,
                detail=f"tableau {m!r}: the state after one non-adaptive step is not y + tau sum_i b_i k_i with k_i = -i H(t0 + c_i tau)(y + tau sum_j a_ij k_j)")
@@ -1579,6 +1586,9 @@ def pc_evolver_rule(chk, src, rule, tableaux, rule_adaptive=None, rule_error=Non
     it4 = make_it()
     it4.exact = True
     res = it4.call_function(f4, [me, (lambda t, *a_, **k_: OpAt(t)), T])
+    if rule_compress:
+        chk.ob(rule_compress, "RK4 evolver returns a compressed state", isinstance(res, St) and res.compressed, f4.where, "sum not compressed" if isinstance(res, St) and not res.compressed else "compressed",
+               "value produced by compressed_sum / compress / contract", line=f4.node.lineno, detail="the evolver returns a state that was summed but not compressed: bond dimensions exceed the configured limit")
     ok = isinstance(res, St) and res.terms == rk_step(a, b[0], c, stages, y0, T, 0)
     chk.ob(rule, "RK4 evolver = Runge-Kutta formula of the classical tableau", ok, f4.where, "differs" if not ok else "equal", "equal", line=f4.node.lineno,
            detail="stage times c_i dt, stage increments a_{i,i-1} dt and weights b_i dt of the hard-coded evolver must be those of C_RK4 (proved by C19)")
@@ -2702,7 +2712,8 @@ def _tdvp_run(src, qual, solver, imag, to_right, ofs=None, jw=False, midpoint=Fa
         it.max_depth = 10
         me = St("state")
         step = _Sc(-sp.I * tau) if imag else _Sc(dt)
-        it.call_function(fi, [me, Mpo_("mpo"), step])
+        res_ = it.call_function(fi, [me, Mpo_("mpo"), step])
+        events.append(("returned", getattr(res_, "_name", repr(res_)), me._name))
         events.append(("final config", me.evolve_config._name, {"midpoint": me.evolve_config.tdvp_cmf_midpoint, "c_trapz": me.evolve_config.tdvp_cmf_c_trapz, "adaptive": me.evolve_config.adaptive}))
         return calls, events
 
@@ -2762,7 +2773,7 @@ def tdvp_solver_rule(chk, src, rule_sibling, rule_herm, quals=("Mps._evolve_tdvp
     return n
 
 
-def tdvp_bookkeeping_rule(chk, src, rule_labels=None, rule_fresh=None, rule_ofs=None, quals=("Mps._evolve_tdvp_ps", "Mps._evolve_tdvp_ps2", "Mps._evolve_tdvp_mu_cmf")):
+def tdvp_bookkeeping_rule(chk, src, rule_labels=None, rule_fresh=None, rule_ofs=None, rule_input=None, quals=("Mps._evolve_tdvp_ps", "Mps._evolve_tdvp_ps2", "Mps._evolve_tdvp_mu_cmf")):
     """the same abstract runs of the tangent-space schemes, read for their bookkeeping events.
     labels: whenever an isometric factor of the k-th blocked decomposition is stored as site s of a state (the factor itself up to transposition / regrouping, not a
     product with something else), the label list of that factor is stored on the bond the new index lives on (u: bond s+1, v: bond s) of the same state and its label
@@ -2801,6 +2812,21 @@ def tdvp_bookkeeping_rule(chk, src, rule_labels=None, rule_fresh=None, rule_ofs=
             if rule_labels and svd_pos:
                 chk.ob(rule_labels, f"{tag}: {n_iso} isometric factors stored with their labels", not probs and n_iso > 0, fi.where, probs[:3] or f"{n_iso} stores, all with labels and centre", "labels of the stored factor on the bond of the new index",
                        line=fi.node.lineno, detail=f"{qual} writes a factor of a blocked decomposition into a site tensor but drops or misplaces its label list: the stored bond labels no longer describe the non-zero blocks: " + (probs[0] if probs else ""))
+            # ---- the input state is left alone, in both time modes
+            if rule_input:
+                for imag in (False, True):
+                    ev_i = ev if not imag else _tdvp_run(src, qual, "krylov", True, to_right)[1]
+                    ret = [e for e in ev_i if e[0] == "returned"][0]
+                    me_name = ret[2]
+                    writes = [e for e in ev_i if e[0] in ("site", "qn", "qnidx", "update", "push") and e[1] == me_name]
+                    pi = []
+                    if ret[1] == me_name:
+                        pi.append("the input object itself is returned")
+                    if writes:
+                        pi.append(f"the input state is written: {[(w[0],) + tuple(w[2:3]) for w in writes[:3]]}")
+                    chk.ob(rule_input, f"{tag}, {'imaginary' if imag else 'real'} time: works on a fresh object", not pi, fi.where, pi or f"returns {ret[1]}, no store into {me_name}", "a copy is evolved and returned",
+                           line=fi.node.lineno, detail=f"{qual} would evolve the caller's state in place: the input is overwritten, and the adaptive step-doubling wrapper, which propagates the same "
+                                                       "input by dt/2, dt/2 and dt, sees three aliases of one object (error estimate 0, every step accepted, total propagation 2*tau): " + (pi[0] if pi else ""))
             # ---- fresh labels
             ups = [e for e in ev if e[0] == "update"]
             if rule_fresh and ups:
